@@ -214,6 +214,10 @@ def bind_instance(sc, obj, name, special=None):
     elif isinstance(v, threading.Event):
       attrs[k] = sc.add(M.MEvent("%s.%s" % (name, k), 1 if v.is_set() else 0))
       sc.auto_bound.append((name, k, "%s.%s" % (name, k), "Event"))      # the replay harness proxies it (R.auto_proxy)
+    elif type(v) is dict and not v:
+      # an empty dict the object keeps besides its modelled state (an index, a cache): a small dict model, proxied in the replay
+      attrs[k] = sc.add(M.MDict("%s.%s" % (name, k), 3))
+      sc.auto_bound.append((name, k, "%s.%s" % (name, k), "dict"))
     elif v is None or isinstance(v, (bool, int, str)):
       attrs[k] = v
   return attrs
@@ -970,7 +974,8 @@ def ao_pubsub(kind="lifo", pending=1, subscribe_first=True, post_after=0):
   pq = sc.add(M.MItemQueue("%s_queue" % kind, 3, {fe.rid: 5}))
   other_pq = sc.add(M.MItemQueue("%s_queue" % ("fifo" if kind == "lifo" else "lifo"), 3, {fe.rid: 5}))
   sc.elem_typ[pq.name] = sc.elem_typ[other_pq.name] = ("rec", FE)
-  lists = sc.add(M.MLists("registries", 2, 2))
+  lists = sc.add(M.MLists("registries", 3, 2))
+  sc.default_lists = lists
   sc.elem_typ["registries"] = "pyobj"
   subs = sc.add(M.MDict("%s_subscriptions" % kind, 2))
   other_subs = sc.add(M.MDict("%s_subscriptions" % ("fifo" if kind == "lifo" else "lifo"), 2))
